@@ -38,8 +38,11 @@ class VirtualLoop(asyncio.SelectorEventLoop):
     # -- stepping ------------------------------------------------------------------------
     def drain(self, max_iter=200000):
         """Run every ready callback (and those they schedule) without advancing the clock."""
+        from harness.core import check_deadline
+
         n = 0
         while True:
+            check_deadline()
             self.call_soon(self.stop)
             self.run_forever()
             n += 1
@@ -52,6 +55,9 @@ class VirtualLoop(asyncio.SelectorEventLoop):
 
     def step(self):
         """Exactly one iteration of the loop: the handles that are ready now run, nothing else."""
+        from harness.core import check_deadline
+
+        check_deadline()
         self.call_soon(self.stop)
         self.run_forever()
 
